@@ -54,6 +54,7 @@ struct HOpts{
     bool refine = true;
     int max_points = 600;
     int vmode = -1; // -1 random per history
+    double construction_bias = 1.0; // multiplies the weight of beginConstruction
 };
 struct HState{
     TasmanianSparseGrid g;
